@@ -35,11 +35,11 @@ package nsqlookupd
 //@ pred mTopicChanArgsOK() := mRPErr == nil && mHasArg(mRP, "topic") && validName(mArg(mRP, "topic")) && mHasArg(mRP, "channel") && validName(mArg(mRP, "channel"))
 //@ ghostgroup mRP, mRPErr
 //@ ghostgroup mFRTopic, mFRTopicKey, mFRTopicSub, mFRChan, mFRChanKey, mFRChanSub
-//@ ghostgroup mFound, mFoundCat, mFoundKey, mFoundSub
+//@ ghostgroup mFound, mFoundCat, mFoundKey, mFoundSub, r3cClientFound, r3cClientKey, r3cClientSub
 //@ ghostgroup mKept, mKeptFrom
 //@ ghostgroup mAddCalls, mLastAdd, mPrevAdd
-//@ ghostgroup mRemCalls, mLastRem
-//@ ghostgroup mTombCalls, mLastTomb
+//@ ghostgroup mRemCalls, mLastRem, r3cRemovedSet, r3cRemAttempts, r3cLastAttempt, r3cLastDropped
+//@ ghostgroup mTombCalls, mLastTomb, r3cTombSet
 
 // POST /channel/create?topic=T&channel=C : registers the channel AND its topic.
 //@ func (s *httpServer) doCreateChannel(w http.ResponseWriter, req *http.Request, ps httprouter.Params) (interface{}, error)
@@ -70,14 +70,29 @@ package nsqlookupd
 //@   ensures[only-matching] mTopicArgOK() && result1 == nil ==> (forall i int :: {mFRChan[i]} 0 <= i && i < len(mFRChan) ==> matches(mFRChan[i], "channel", mArg(mRP, "topic"), "*")) &&
 //@        (forall i int :: {mFRTopic[i]} 0 <= i && i < len(mFRTopic) ==> matches(mFRTopic[i], "topic", mArg(mRP, "topic"), ""))
 //@   ensures[only-this-topic] mTopicArgOK() && result1 == nil ==> (0 <= gi && gi < len(mFRChan) ==> mFRChan[gi].Key == mArg(mRP, "topic")) && (0 <= gi && gi < len(mFRTopic) ==> mFRTopic[gi].Key == mArg(mRP, "topic"))
+//   (round 3, area C) ALL and ONLY: every channel registration found for the topic and every topic registration found is removed
+//   (the look-ups themselves are complete: FindRegistrations [complete]); nothing else is removed.
+//@   ensures[all-found-removed] mTopicArgOK() && result1 == nil ==> (forall i int :: {mFRChan[i]} 0 <= i && i < len(mFRChan) ==> setin(r3cRemovedSet, mFRChan[i])) &&
+//@        (forall i int :: {mFRTopic[i]} 0 <= i && i < len(mFRTopic) ==> setin(r3cRemovedSet, mFRTopic[i]))
+//@   ensures[only-found-removed] forall k Registration :: {setin(r3cRemovedSet, k)} setin(r3cRemovedSet, k) && !old(setin(r3cRemovedSet, k)) ==>
+//@        (exists i int :: {mFRChan[i]} 0 <= i && i < len(mFRChan) && mFRChan[i] == k) || (exists i int :: {mFRTopic[i]} 0 <= i && i < len(mFRTopic) && mFRTopic[i] == k)
+//@   ensures[only-this-topic-removed] forall k Registration :: {setin(r3cRemovedSet, k)} setin(r3cRemovedSet, k) && !old(setin(r3cRemovedSet, k)) ==>
+//@        k.Key == mArg(mRP, "topic") && (k.Category == "channel" || (k.Category == "topic" && k.SubKey == ""))
 //@   ensures[rejected-changes-nothing] result1 != nil ==> mRemCalls == old(mRemCalls)
 //@   ensures[never-adds] mAddCalls == old(mAddCalls) && mTombCalls == old(mTombCalls)
 //@   modifies mRP, mRemCalls, mFRTopic, RegistrationDB.registrationMap, mapstore(map[Registration]ProducerMap), mapstore(ProducerMap)
 //@   loop 0
+//@     invariant[removed-so-far] forall i int :: {mFRChan[i]} 0 <= i && i <= rangeindex ==> setin(r3cRemovedSet, mFRChan[i])
+//@     invariant[only-found] forall k Registration :: {setin(r3cRemovedSet, k)} setin(r3cRemovedSet, k) && !old(setin(r3cRemovedSet, k)) ==>
+//@        (exists i int :: {mFRChan[i]} 0 <= i && i <= rangeindex && mFRChan[i] == k)
 //@     invariant registrations == mFRChan && fresh(registrations) && mFRChanKey == topicName && mFRChanSub == "*" && mRPErr == nil && mRP == reqParams && mArg(mRP, "topic") == topicName && mHasArg(mRP, "topic")
 //@     invariant mRemCalls == old(mRemCalls) + rangeindex + 1 && rangeindex < len(registrations) && mAddCalls == old(mAddCalls) && mTombCalls == old(mTombCalls)
 //@     invariant forall i int :: {mFRChan[i]} 0 <= i && i < len(mFRChan) ==> matches(mFRChan[i], "channel", topicName, "*")
 //@   loop 1
+//@     invariant[chan-removed] forall i int :: {mFRChan[i]} 0 <= i && i < len(mFRChan) ==> setin(r3cRemovedSet, mFRChan[i])
+//@     invariant[removed-so-far] forall i int :: {mFRTopic[i]} 0 <= i && i <= rangeindex ==> setin(r3cRemovedSet, mFRTopic[i])
+//@     invariant[only-found] forall k Registration :: {setin(r3cRemovedSet, k)} setin(r3cRemovedSet, k) && !old(setin(r3cRemovedSet, k)) ==>
+//@        (exists i int :: {mFRChan[i]} 0 <= i && i < len(mFRChan) && mFRChan[i] == k) || (exists i int :: {mFRTopic[i]} 0 <= i && i <= rangeindex && mFRTopic[i] == k)
 //@     invariant registrations == mFRTopic && fresh(registrations) && mFRChanKey == topicName && mFRChanSub == "*" && mFRTopicKey == topicName && mFRTopicSub == "" && mRPErr == nil && mRP == reqParams && mArg(mRP, "topic") == topicName && mHasArg(mRP, "topic")
 //@     invariant mRemCalls == old(mRemCalls) + len(mFRChan) + rangeindex + 1 && rangeindex < len(registrations) && mAddCalls == old(mAddCalls) && mTombCalls == old(mTombCalls)
 //@     invariant rangeindex >= 0 ==> mLastRem == registrations[rangeindex]
@@ -95,10 +110,17 @@ package nsqlookupd
 //@   ensures[not-found] mTopicChanArgsOK() ==> (mIsErr(result1, 404, "CHANNEL_NOT_FOUND") <==> len(mFRChan) == 0) && (result1 == nil <==> len(mFRChan) > 0)
 //@   ensures[one-removal-per-found] result1 == nil ==> mRemCalls == old(mRemCalls) + len(mFRChan) && mLastRem == mFRChan[len(mFRChan) - 1]
 //@   ensures[only-this-channel] mTopicChanArgsOK() ==> forall i int :: {mFRChan[i]} 0 <= i && i < len(mFRChan) ==> matches(mFRChan[i], "channel", mArg(mRP, "topic"), mArg(mRP, "channel"))
+//   (round 3, area C) ALL and ONLY: the channel registration found is removed, nothing else is.
+//@   ensures[all-found-removed] result1 == nil ==> forall i int :: {mFRChan[i]} 0 <= i && i < len(mFRChan) ==> setin(r3cRemovedSet, mFRChan[i])
+//@   ensures[only-this-channel-removed] forall k Registration :: {setin(r3cRemovedSet, k)} setin(r3cRemovedSet, k) && !old(setin(r3cRemovedSet, k)) ==>
+//@        k.Category == "channel" && k.Key == mArg(mRP, "topic") && k.SubKey == mArg(mRP, "channel")
 //@   ensures[rejected-changes-nothing] result1 != nil ==> mRemCalls == old(mRemCalls)
 //@   ensures[never-adds] mAddCalls == old(mAddCalls) && mTombCalls == old(mTombCalls)
 //@   modifies mRP, mRemCalls, mFRTopic, RegistrationDB.registrationMap, mapstore(map[Registration]ProducerMap), mapstore(ProducerMap)
 //@   loop 0
+//@     invariant[removed-so-far] forall i int :: {mFRChan[i]} 0 <= i && i <= rangeindex ==> setin(r3cRemovedSet, mFRChan[i])
+//@     invariant[only-found] forall k Registration :: {setin(r3cRemovedSet, k)} setin(r3cRemovedSet, k) && !old(setin(r3cRemovedSet, k)) ==>
+//@        (exists i int :: {mFRChan[i]} 0 <= i && i <= rangeindex && mFRChan[i] == k)
 //@     invariant registrations == mFRChan && fresh(registrations) && len(registrations) > 0 && mFRChanKey == topicName && mFRChanSub == channelName && mRP == reqParams && mTopicChanArgsOK() && mArg(mRP, "topic") == topicName && mArg(mRP, "channel") == channelName
 //@     invariant mRemCalls == old(mRemCalls) + rangeindex + 1 && rangeindex < len(registrations) && mAddCalls == old(mAddCalls) && mTombCalls == old(mTombCalls)
 //@     invariant rangeindex >= 0 ==> mLastRem == registrations[rangeindex]
@@ -127,6 +149,9 @@ package nsqlookupd
 //@   ensures[query] mFRTopicKey == "*" && mFRTopicSub == ""
 //@   ensures[topics] len(unbox(unbox(result0, "map[string]interface{}")["topics"], "[]string")) == len(mFRTopic) &&
 //@        forall i int :: {mFRTopic[i]} 0 <= i && i < len(mFRTopic) ==> unbox(unbox(result0, "map[string]interface{}")["topics"], "[]string")[i] == mFRTopic[i].Key
+//   (round 3, area C) every topic registration of the registry is listed (FindRegistrations [complete] for the query above), each topic once
+//@   ensures[no-duplicate-topics] forall i1 int, i2 int :: {mFRTopic[i1], mFRTopic[i2]} 0 <= i1 && i1 < i2 && i2 < len(mFRTopic) ==>
+//@        unbox(unbox(result0, "map[string]interface{}")["topics"], "[]string")[i1] != unbox(unbox(result0, "map[string]interface{}")["topics"], "[]string")[i2]
 //@   ensures[registry-untouched] mAddCalls == old(mAddCalls) && mRemCalls == old(mRemCalls) && mTombCalls == old(mTombCalls)
 //@   modifies mFRTopic, RegistrationDB.registrationMap, mapstore(map[Registration]ProducerMap), mapstore(ProducerMap)
 
@@ -144,6 +169,9 @@ package nsqlookupd
 //@   ensures[channels] result1 == nil ==> len(unbox(unbox(result0, "map[string]interface{}")["channels"], "[]string")) == len(mFRChan) &&
 //@        forall i int :: {mFRChan[i]} 0 <= i && i < len(mFRChan) ==> unbox(unbox(result0, "map[string]interface{}")["channels"], "[]string")[i] == mFRChan[i].SubKey
 //@   ensures[only-this-topic] result1 == nil && 0 <= gi && gi < len(mFRChan) ==> mFRChan[gi].Category == "channel" && mFRChan[gi].Key == mArg(mRP, "topic")
+//   (round 3, area C) every channel registration of the topic is listed (FindRegistrations [complete] for the query above), each channel once
+//@   ensures[no-duplicate-channels] result1 == nil ==> forall i1 int, i2 int :: {mFRChan[i1], mFRChan[i2]} 0 <= i1 && i1 < i2 && i2 < len(mFRChan) ==>
+//@        unbox(unbox(result0, "map[string]interface{}")["channels"], "[]string")[i1] != unbox(unbox(result0, "map[string]interface{}")["channels"], "[]string")[i2]
 //@   ensures[registry-untouched] mAddCalls == old(mAddCalls) && mRemCalls == old(mRemCalls) && mTombCalls == old(mTombCalls)
 //@   modifies mRP, mFRTopic, RegistrationDB.registrationMap, mapstore(map[Registration]ProducerMap), mapstore(ProducerMap)
 
@@ -175,6 +203,11 @@ package nsqlookupd
 //@        mPinged(mFound[i], unixNano(lastNow), s.nsqlookupd.opts.InactiveProducerTimeout) && !mTombAt(mFound[i], unixNano(lastNow), s.nsqlookupd.opts.TombstoneLifetime) ==>
 //@        (exists j int :: {mKept[j]} 0 <= j && j < len(mKept) && mKept[j] == mFound[i])
 //@   ensures[only-this-topic] result1 == nil && 0 <= gi && gi < len(mFRChan) ==> mFRChan[gi].Category == "channel" && mFRChan[gi].Key == mArg(mRP, "topic")
+//   (round 3, area C) ALL channels / ALL live producers: [channels] + FindRegistrations [complete]; [live-are-listed] + FindProducers [complete-exact];
+//   each channel once, each nsqd (peer id) once, producers in the order of the registry answer.
+//@   ensures[no-duplicate-channels] result1 == nil ==> forall i1 int, i2 int :: {mFRChan[i1], mFRChan[i2]} 0 <= i1 && i1 < i2 && i2 < len(mFRChan) ==>
+//@        unbox(unbox(result0, "map[string]interface{}")["channels"], "[]string")[i1] != unbox(unbox(result0, "map[string]interface{}")["channels"], "[]string")[i2]
+//@   ensures[one-entry-per-nsqd] result1 == nil ==> forall j1 int, j2 int :: {mKept[j1], mKept[j2]} 0 <= j1 && j1 < j2 && j2 < len(mKept) ==> mKept[j1].peerInfo.id != mKept[j2].peerInfo.id
 //@   ensures[registry-untouched] mAddCalls == old(mAddCalls) && mRemCalls == old(mRemCalls) && mTombCalls == old(mTombCalls)
 //@   modifies mRP, mFRTopic, mFound, mKept, lastNow, mClock, RegistrationDB.registrationMap, mapstore(map[Registration]ProducerMap), mapstore(ProducerMap)
 
@@ -193,11 +226,22 @@ package nsqlookupd
 //@   ensures[at-most-the-found] result1 == nil ==> mTombCalls - old(mTombCalls) <= len(mFound) && mTombCalls >= old(mTombCalls)
 //@   ensures[tombstoned-was-found] result1 == nil && mTombCalls > old(mTombCalls) ==> (exists j int :: {mFound[j]} 0 <= j && j < len(mFound) && mFound[j] == mLastTomb)
 //@   ensures[others-untouched] (forall j int :: {mFound[j]} 0 <= j && j < len(mFound) ==> mFound[j] != gp) ==> gp.tombstoned == old(gp.tombstoned) && gp.tombstonedAt == old(gp.tombstonedAt)
+//   (round 3, area C) the NAMED producer and ONLY it: among the producers registered for the topic, every one whose "address:httpport"
+//   (r3cHostPort = fmt.Sprintf("%s:%d", ..), .trusted/gmeta.spec) equals the node argument is tombstoned, and nobody else is.
+//@   ensures[named-are-tombstoned] result1 == nil ==> forall j int :: {mFound[j]} 0 <= j && j < len(mFound) &&
+//@        r3cHostPort(mFound[j].peerInfo.BroadcastAddress, mFound[j].peerInfo.HTTPPort) == mArg(mRP, "node") ==> setin(r3cTombSet, mFound[j])
+//@   ensures[only-named-tombstoned] forall p *Producer :: {setin(r3cTombSet, p)} setin(r3cTombSet, p) && !old(setin(r3cTombSet, p)) ==>
+//@        (exists j int :: {mFound[j]} 0 <= j && j < len(mFound) && mFound[j] == p) && r3cHostPort(p.peerInfo.BroadcastAddress, p.peerInfo.HTTPPort) == mArg(mRP, "node")
 //@   ensures[rejected-changes-nothing] result1 != nil ==> mTombCalls == old(mTombCalls) && gp.tombstoned == old(gp.tombstoned)
 //@   ensures[never-adds-or-removes] mAddCalls == old(mAddCalls) && mRemCalls == old(mRemCalls)
 //@   modifies mRP, mFound, mTombCalls, lastNow, Producer.tombstoned, Producer.tombstonedAt, RegistrationDB.registrationMap, mapstore(map[Registration]ProducerMap), mapstore(ProducerMap)
 //@   loop 0
 //@     invariant producers == mFound && mValidProds(producers) && mRPErr == nil && mRP == reqParams && mHasArg(mRP, "topic") && mArg(mRP, "topic") == topicName
+//@     invariant[node-arg] mHasArg(mRP, "node") && mArg(mRP, "node") == node
+//@     invariant[named-so-far] forall j int :: {mFound[j]} 0 <= j && j <= rangeindex &&
+//@        r3cHostPort(mFound[j].peerInfo.BroadcastAddress, mFound[j].peerInfo.HTTPPort) == node ==> setin(r3cTombSet, mFound[j])
+//@     invariant[only-named] forall p *Producer :: {setin(r3cTombSet, p)} setin(r3cTombSet, p) && !old(setin(r3cTombSet, p)) ==>
+//@        (exists j int :: {mFound[j]} 0 <= j && j <= rangeindex && mFound[j] == p) && r3cHostPort(p.peerInfo.BroadcastAddress, p.peerInfo.HTTPPort) == node
 //@     invariant mFoundCat == "topic" && mFoundKey == topicName && mFoundSub == "" && mAddCalls == old(mAddCalls) && mRemCalls == old(mRemCalls)
 //@     invariant mTombCalls >= old(mTombCalls) && mTombCalls - old(mTombCalls) <= rangeindex + 1 && rangeindex < len(producers)
 //@     invariant mTombCalls > old(mTombCalls) ==> (exists j int :: {mFound[j]} 0 <= j && j < len(mFound) && mFound[j] == mLastTomb)
@@ -205,8 +249,15 @@ package nsqlookupd
 
 // GET /nodes : one node per active producer of the "client" registration (tombstoned ones included: lifetime 0); per node the
 // tombstone flags are aligned with the topic list (same length), so neither this handler nor a client indexing Tombstones by
-// topic position can run out of range. (That each node carries the identity of producer k: solver timeouts, see NOTES.)
+// topic position can run out of range. Round 3: node k carries the identity fields of producer k and lists exactly that peer's topics.
 //@ pred mNodeOK(n *node) := n != nil && len(n.Tombstones) == len(n.Topics)
+//@ pred r3cNodeIs(n *node, pi *PeerInfo) := n.RemoteAddress == pi.RemoteAddress && n.Hostname == pi.Hostname && n.BroadcastAddress == pi.BroadcastAddress &&
+//@      n.TCPPort == pi.TCPPort && n.HTTPPort == pi.HTTPPort && n.Version == pi.Version && n.ToplogyZone == pi.TopologyZone && n.ToplogyRegion == pi.TopologyRegion
+// r3cTopicsOf(ts, regs): ts lists exactly the keys of the topic registrations ("topic", key, "") among regs.
+//@ pred r3cTopicsSound(ts []string, regs Registrations) := forall j int :: {ts[j]} 0 <= j && j < len(ts) ==> (exists i int :: {regs[i]} 0 <= i && i < len(regs) && regs[i].Category == "topic" && regs[i].SubKey == "" && regs[i].Key == ts[j])
+//@ pred r3cTopicsComplete(ts []string, regs Registrations) := forall i int :: {regs[i]} 0 <= i && i < len(regs) && regs[i].Category == "topic" && regs[i].SubKey == "" ==> (exists j int :: {ts[j]} 0 <= j && j < len(ts) && ts[j] == regs[i].Key)
+//@ pred r3cTopicsOf(ts []string, regs Registrations) := r3cTopicsSound(ts, regs) && r3cTopicsComplete(ts, regs)
+//@ pred r3cDistinctIDs(pp Producers) := forall d1 int, d2 int :: {pp[d1], pp[d2]} 0 <= d1 && d1 < d2 && d2 < len(pp) ==> pp[d1].peerInfo.id != pp[d2].peerInfo.id
 //@ pred mCacheOK(m map[string]Producers) := forall t2 string :: {m[t2]} has(m, t2) ==> mValidProds(m[t2])
 //@ func (s *httpServer) doNodes(w http.ResponseWriter, req *http.Request, ps httprouter.Params) (interface{}, error)
 //@   props C14 C15
@@ -214,6 +265,14 @@ package nsqlookupd
 //@   ensures[ok] result1 == nil && mIsDoc(result0) && has(unbox(result0, "map[string]interface{}"), "producers") && dyntype(unbox(result0, "map[string]interface{}")["producers"]) == typetag("[]*node")
 //@   ensures[one-node-per-active-producer] len(unbox(unbox(result0, "map[string]interface{}")["producers"], "[]*node")) == len(mKept) &&
 //@        forall k int :: {unbox(unbox(result0, "map[string]interface{}")["producers"], "[]*node")[k]} 0 <= k && k < len(mKept) ==> mNodeOK(unbox(unbox(result0, "map[string]interface{}")["producers"], "[]*node")[k])
+//   (round 3, area C) EVERY connected nsqd is a node: the nodes are, in order, the producers of the registration ("client","","") (ALL of
+//   them: FindProducers [complete-exact]) that pinged within InactiveProducerTimeout (ALL of those: FilterByActive [live-are-kept] with
+//   tombstone lifetime 0, i.e. tombstones do not hide a node); node k carries the identity fields of producer k.
+//@   ensures[every-client-is-a-node] mKeptFrom == r3cClientFound && r3cClientKey == "" && r3cClientSub == ""
+//@   ghostparam gk int
+//@   ensures[node-identity] 0 <= gk && gk < len(mKept) ==> r3cNodeIs(unbox(unbox(result0, "map[string]interface{}")["producers"], "[]*node")[gk], mKept[gk].peerInfo)
+//@   ensures[node-topics] 0 <= gk && gk < len(mKept) && mKept[gk].peerInfo.id == r3cWatchPeer ==>
+//@        r3cTopicsOf(unbox(unbox(result0, "map[string]interface{}")["producers"], "[]*node")[gk].Topics, r3cWatchLooked)
 //@   ensures[registry-untouched] mAddCalls == old(mAddCalls) && mRemCalls == old(mRemCalls) && mTombCalls == old(mTombCalls)
 //@   modifies mFound, mKept, lastNow, mClock, lookedUpID, lookedUpLen, removedSinceLookup, RegistrationDB.registrationMap, mapstore(map[Registration]ProducerMap), mapstore(ProducerMap)
 //@   loop 0
@@ -221,12 +280,24 @@ package nsqlookupd
 //@     invariant topicProducersMap != nil && fresh(topicProducersMap) && mCacheOK(topicProducersMap)
 //@     invariant mAddCalls == old(mAddCalls) && mRemCalls == old(mRemCalls) && mTombCalls == old(mTombCalls)
 //@     invariant[aligned] forall k int :: {nodes[k]} 0 <= k && k <= rangeindex ==> mNodeOK(nodes[k])
+//@     invariant[clients] mKeptFrom == r3cClientFound && r3cClientKey == "" && r3cClientSub == ""
+//@     invariant[identity] 0 <= gk && gk <= rangeindex ==> allocated(nodes[gk]) && r3cNodeIs(nodes[gk], producers[gk].peerInfo)
+//@     invariant[distinct-ids] r3cDistinctIDs(producers)
+//@     invariant[node-topics-sound] 0 <= gk && gk <= rangeindex && producers[gk].peerInfo.id == r3cWatchPeer ==> r3cTopicsSound(nodes[gk].Topics, r3cWatchLooked)
+//@     invariant[node-topics-complete] 0 <= gk && gk <= rangeindex && producers[gk].peerInfo.id == r3cWatchPeer ==> r3cTopicsComplete(nodes[gk].Topics, r3cWatchLooked)
 //@   loop 1
 //@     invariant producers == mKept && mValidProds(producers) && fresh(nodes) && len(nodes) == len(producers) && 0 <= i && i < len(producers) && p == producers[i]
 //@     invariant topicProducersMap != nil && fresh(topicProducersMap) && mCacheOK(topicProducersMap)
 //@     invariant mAddCalls == old(mAddCalls) && mRemCalls == old(mRemCalls) && mTombCalls == old(mTombCalls)
 //@     invariant forall k int :: {nodes[k]} 0 <= k && k < i ==> mNodeOK(nodes[k])
 //@     invariant fresh(tombstones) && len(tombstones) == len(topics) && rangeindex < len(topics)
+//@     invariant[clients] mKeptFrom == r3cClientFound && r3cClientKey == "" && r3cClientSub == ""
+//@     invariant[identity] 0 <= gk && gk < i ==> allocated(nodes[gk]) && r3cNodeIs(nodes[gk], producers[gk].peerInfo)
+//@     invariant[distinct-ids] r3cDistinctIDs(producers)
+//@     invariant[node-topics-sound] 0 <= gk && gk < i && producers[gk].peerInfo.id == r3cWatchPeer ==> r3cTopicsSound(nodes[gk].Topics, r3cWatchLooked)
+//@     invariant[node-topics-complete] 0 <= gk && gk < i && producers[gk].peerInfo.id == r3cWatchPeer ==> r3cTopicsComplete(nodes[gk].Topics, r3cWatchLooked)
+//@     invariant[cur-topics-sound] producers[i].peerInfo.id == r3cWatchPeer ==> r3cTopicsSound(topics, r3cWatchLooked)
+//@     invariant[cur-topics-complete] producers[i].peerInfo.id == r3cWatchPeer ==> r3cTopicsComplete(topics, r3cWatchLooked)
 //@   loop 2
 //@     invariant producers == mKept && mValidProds(producers) && fresh(nodes) && len(nodes) == len(producers) && 0 <= i && i < len(producers) && p == producers[i]
 //@     invariant topicProducersMap != nil && fresh(topicProducersMap) && mCacheOK(topicProducersMap)
@@ -234,3 +305,10 @@ package nsqlookupd
 //@     invariant forall k int :: {nodes[k]} 0 <= k && k < i ==> mNodeOK(nodes[k])
 //@     invariant fresh(tombstones) && len(tombstones) == len(topics) && 0 <= j && j < len(topics)
 //@     invariant mValidProds(topicProducers)
+//@     invariant[clients] mKeptFrom == r3cClientFound && r3cClientKey == "" && r3cClientSub == ""
+//@     invariant[identity] 0 <= gk && gk < i ==> allocated(nodes[gk]) && r3cNodeIs(nodes[gk], producers[gk].peerInfo)
+//@     invariant[distinct-ids] r3cDistinctIDs(producers)
+//@     invariant[node-topics-sound] 0 <= gk && gk < i && producers[gk].peerInfo.id == r3cWatchPeer ==> r3cTopicsSound(nodes[gk].Topics, r3cWatchLooked)
+//@     invariant[node-topics-complete] 0 <= gk && gk < i && producers[gk].peerInfo.id == r3cWatchPeer ==> r3cTopicsComplete(nodes[gk].Topics, r3cWatchLooked)
+//@     invariant[cur-topics-sound] producers[i].peerInfo.id == r3cWatchPeer ==> r3cTopicsSound(topics, r3cWatchLooked)
+//@     invariant[cur-topics-complete] producers[i].peerInfo.id == r3cWatchPeer ==> r3cTopicsComplete(topics, r3cWatchLooked)
